@@ -91,8 +91,8 @@ CLAIMED["C08"] = dict(
 )
 CLAIMED["C09"] = dict(
     text="Proof (Lean 4): the pending-signal slot after any sequence of signalling transitions excludes x exactly when all came from x (however many) and is All once two distinct machines signalled; the delivery round visits every machine "
-         "except a lone signaller exactly once in index order and the lone signaller once afterwards iff the round raised a new signal (no machine twice). That each visit is one delivered Signal in the implementation is checked by the monitor on the "
-         "hooked internal log and by the correspondence, not by a theorem.",
+         "except a lone signaller exactly once in index order and the lone signaller once afterwards iff the round raised a new signal; counted on the model's ghost copy of the hook log, no machine receives more than one Signal per call "
+         "and processing reported events delivers none. The implementation is tied to this by the correspondence of the internal log and by the monitor from the property text.",
     ref="5 (C09)",
     technique="Lean 4 theorems on the signal slot algebra and the unfolding of the delivery round + spec monitor on the implementation's internal log + differential correspondence",
 )
